@@ -45,7 +45,7 @@ m = {
               "line), 2 infrastructure failure. Known findings (committed list, never written at run time): known_findings.json "
               "- 'findings' entries (C01/C07 Woodbury cancellation, C10 child streams from the private seed sequence, C13 "
               "disk-full cache write) print a KNOWN-FINDING line and leave the exit code at 0; 'fixed' entries document the "
-              "61 'fix:' commits in /repo and suppress nothing. Checks honour VERIF_SEED, VERIF_TIER, and VERIF_REPO (private "
+              "66 'fix:' commits in /repo and suppress nothing. Checks honour VERIF_SEED, VERIF_TIER, and VERIF_REPO (private "
               "copy of the repository; evidence/ is only written for /repo itself)."),
 }
 json.dump(m, open(os.path.join(HERE, "MANIFEST.json"), "w"), indent=1)
